@@ -43,6 +43,8 @@ fn main() {
     let n = ctx.pick(6_000, 400_000);
     ctx.prop("command-lane", n, move || cmdlane::arb_case(max_ops), cmdlane::check);
     let n = ctx.pick(6_000, 400_000);
-    ctx.prop("agent-commands", n, move || sent::arb_case(max_ops), sent::check);
+    ctx.prop("agent-commands", n, move || sent::arb_case(max_ops, false), sent::check);
+    let n = ctx.pick(6_000, 400_000);
+    ctx.prop("agent-commands-commander", n, move || sent::arb_case(max_ops, true), sent::check);
     ctx.finish();
 }
